@@ -18,3 +18,24 @@ register('C09', 'p_text', 'c09',
          'Theorems in Properties/C09.v: totality of the parser result type and one rejection theorem per class; '
          'correspondence on generated texts; spec predicates evaluated on the implementation output.',
          ORACLE)
+
+
+# ---- MANIFEST metadata per claimed property ------------------------------------------------
+NOT_APPLICABLE = {}
+META = {
+ 'C08': dict(engine='coq+text', design_ref='DESIGN.md section 5 C08',
+   technique='Coq theorems (induction over paths/entry lists; finite-table lemmas by vm_compute) + differential model/implementation runs',
+   level_text='Proved in Coq for all inputs (no size bound): path escape round trip, one-field/one-line shape, int(str(n)), '
+              'strptime(strftime(ts)) over all valid datetimes, per-entry and whole-file load(dump(es)) = es for every list of well-formed '
+              'entries; the canonical fixed point is proved given well-formedness of the parsed entries (C08_fixpoint_partial). '
+              'The model is tied to /repo by regenerated tables (regexes, encode_char, tag table) and by exhaustive/random correspondence.',
+   level_note='Theorems are about the hand-written model Model/{Entry,Text}.v; Python builtins modelled in Py/; compression codecs and UTF-8 '
+              'are exercised on the implementation only (round trip through real files); Print Assumptions: closed under the global context.'),
+ 'C09': dict(engine='coq+text', design_ref='DESIGN.md section 5 C09',
+   technique='Coq theorems (totality of the parser result type by induction over lines; per-class rejection lemmas) + differential runs',
+   level_text='Proved in Coq for every text: load returns entries, ManifestSyntaxError or ManifestUnsignedData and nothing else; accepted entries '
+              'have non-empty relative paths however escaped, non-negative sizes, slash-free DIST names, valid timestamps; wrong field counts, '
+              'dangling checksum names, bad/out-of-range escapes, unknown tags are rejected; no non-blank line is skipped.',
+   level_note='About the model; tied to /repo by generated tables and by correspondence on grammar/token/mutation/escape generators. '
+              'int() and strptime() are modelled after CPython 3.12 and validated per run.'),
+}
